@@ -16,8 +16,18 @@ structure C09St where
   prevState : String := "gone"
   refused : Bool := false         -- non-100 seen while awaiting (from the result of read100 + keep100 is not needed: use C11's classifier)
   lastResp : Option (Nat × Nat × List Hdr) := none   -- status, version, headers of the response returned
+  hdrs : List Hdr := []           -- request headers given so far (new + hdr ops), first flow only
+  sentIn : Nat := 0               -- request-body input bytes accepted in SendBody
+  bodyEnded : Bool := false       -- the whole declared body was accepted and its end was signalled without an error
   known : Option (String × String) := none
   fail : Option String := none
+
+/-- declared Content-Length of the request, when that is its only framing -/
+def declaredLen (hs : List Hdr) : Option Nat :=
+  if hs.any (fun h => h.name.toLower == "transfer-encoding") then none else
+  match hs.filter (fun h => h.name.toLower == "content-length") with
+  | [h] => (String.ofList (h.value.map fun b => Char.ofNat b.toNat)).toNat?
+  | _ => none
 
 def oracleC09 (c : TCase) : Verdict :=
   let st := c.lines.foldl (fun (s : C09St) t =>
@@ -34,10 +44,26 @@ def oracleC09 (c : TCase) : Verdict :=
       (match t.op with
        | _ :: m :: _ :: _ :: _ :: rest =>
          { s1 with method := m, expect100 := (pairsOf rest).any (fun h => h.name == "expect" && h.value == strB "100-continue"),
-                   despite := false, firstFlow := true, refused := false, lastResp := none }
+                   despite := false, firstFlow := true, refused := false, lastResp := none,
+                   hdrs := pairsOf rest, sentIn := 0, bodyEnded := false }
        | _ => s1)
+    | "hdr" => (match t.op, t.res with | [_, k, v], ["ok"] => { s1 with hdrs := s.hdrs ++ [{ name := k.toLower, value := unhex v }] } | _, _ => s1)
+    | "bwrite" =>
+      if s.prevState != "sendBody" || !s.firstFlow then s1 else
+      (match t.op, t.res with
+       | [_, i, cap], ["bytes", n, out] =>
+         let sent := s.sentIn + n.toNat!
+         let endNow := i == "-" &&
+           ((declaredLen s.hdrs == some sent) ||
+            (declaredLen s.hdrs).isNone && 5 ≤ cap.toNat! && out == "300d0a0d0a")
+         { s1 with sentIn := sent, bodyEnded := s.bodyEnded || endNow }
+       | _, _ => s1)
+    | "canproceed" =>
+      if s.prevState == "sendBody" && s.bodyEnded && t.res == ["bool", "false"] then
+        { s with fail := some "the whole request body was written and its end signalled, but the flow is not ready to advance" }
+      else s1
     | "despite" => if t.res == ["unit"] then { s1 with despite := true } else s1
-    | "follow" => (match t.res with | "flow" :: m :: _ => { s1 with method := m, firstFlow := false, despite := false, refused := false, lastResp := none } | _ => s1)
+    | "follow" => (match t.res with | "flow" :: m :: _ => { s1 with method := m, firstFlow := false, despite := false, refused := false, lastResp := none, bodyEnded := false, sentIn := 0, hdrs := [] } | _ => s1)
     | "read100" =>
       (match classifyLook (unhex (t.op.getD 1 "-")), t.res with
        | .refused, ["count", "0"] => { s1 with refused := true }
@@ -78,7 +104,10 @@ def oracleC09 (c : TCase) : Verdict :=
           | some e => if e == nxt then s1 else { s with fail := some s!"from {from_} the graph prescribes {e}, the flow went to {nxt}" }
           | none => s1)
        | "none" :: rest =>
-         if canFlag rest == some true then { s with fail := some s!"readiness query true but advancing returned nothing: {t.raw.take 100}" } else s1
+         if canFlag rest == some true then { s with fail := some s!"readiness query true but advancing returned nothing: {t.raw.take 100}" }
+         else if from_ == "sendBody" && s.bodyEnded then
+           { s with fail := some "the whole request body was written and its end signalled, but the flow cannot advance to receiving the response" }
+         else s1
        | "fault" :: _ => s1
        | _ => s1)
     | _ => s1) ({} : C09St)
